@@ -811,6 +811,9 @@ func C06(r *eng.Run) {
 		// the other side) gets a writer from GetWriter again: whatever the
 		// pool hands out must be a well-behaved writer.
 		wsutil.PutWriter(wr.W)
+		if !extsIntact() {
+			r.FailProp("C17", "caller_slice_modified", "%s: PutWriter changed the slice of extensions the application had spread into SetExtensions", cfg)
+		}
 		cfg2 := cfg
 		cfg2.Ctor = 4
 		if poolable {
